@@ -25,7 +25,7 @@ MkMProcess(k, m) == [x \in 1..m |-> [a \in 1..4 |-> [b \in 1..4 |-> Val(k + 2 * 
 Raw(k) == CASE k % 4 = 0 -> [type |-> "state", v |-> MkState(k)]
             [] k % 4 = 1 -> [type |-> "povm", v |-> MkPovm(k, 2 + (k % 3))]
             [] k % 4 = 2 -> [type |-> "gate", v |-> MkGate(k)]
-            [] k % 4 = 3 -> [type |-> "mprocess", v |-> MkMProcess(k, 2 + (k % 2))]
+            [] k % 4 = 3 -> [type |-> "mprocess", v |-> MkMProcess(k, 2 + (k % 3))]      \* 2, 3 or 4 outcomes (4: also laid out as a 2 x 2 grid)
 ProjEq(o) == CASE o.type = "state" -> [o EXCEPT !.v = EqStateH(o.v, 2)]
                [] o.type = "povm" -> [o EXCEPT !.v = EqPovmH(o.v)]
                [] o.type = "gate" -> [o EXCEPT !.v = EqGateH(o.v)]
